@@ -251,6 +251,37 @@ def classify(b):
     return None
 
 
+def long_objects(out, workdir):
+    """members 10, 11, ... and 100, 101: the reader's key order is the writer's member order only if the keys sort
+    numerically (the exhaustive structures above hold at most three members)"""
+    from droplets import DiffuseDroplet, Emulsion, EmulsionTimeCourse, SphericalDroplet
+    from droplets.droplet_tracks import DropletTrack, DropletTrackList
+
+    for n in ((12, 103) if out.tier == "quick" else (12, 103, 1001)):
+        fails = []
+        ems = [Emulsion([DiffuseDroplet(np.array([0.5 * k, -1.0 * j]), 1.0 + 0.01 * k, 0.1 * (j + 1)) for j in range(k % 3)])
+               for k in range(n)]
+        tc = EmulsionTimeCourse(ems, times=[0.25 * k - 3 for k in range(n)])
+        p = os.path.join(workdir, f"long_tc_{n}.h5")
+        tc.to_file(p)
+        back = EmulsionTimeCourse.from_file(p, progress=False)
+        if not identical("TimeCourse", tc, back) or not (back == tc):
+            fails.append(f"time course of {n} frames does not read back equal (frames in member order)")
+        tl = DropletTrackList()
+        for k in range(n):
+            tl.append(DropletTrack([SphericalDroplet(np.array([1.0 * k + i, 2.0]), 0.5 + 0.001 * k) for i in range(1 + k % 2)],
+                                   [float(k + i) for i in range(1 + k % 2)]))
+        p = os.path.join(workdir, f"long_tl_{n}.h5")
+        tl.to_file(p)
+        back = DropletTrackList.from_file(p, progress=False)
+        if not identical("TrackList", tl, back):
+            fails.append(f"track list of {n} tracks does not read back equal (tracks in member order)")
+        out.evaluations += 2
+        if fails:
+            out.violation({"long_objects": n, "fails": fails})
+    out.parts["long_objects"] = {"members": "12, 103 (thorough: 1001)"}
+
+
 def run(out: core.Outcome) -> None:
     import multiprocessing as mp
 
@@ -296,6 +327,7 @@ def run(out: core.Outcome) -> None:
             out.parts[name].update(histories=len(items), mismatches=nbad, accepted_where_spec_raises=dev,
                                    not_constructible=unb)
             out.sample({"config": name, "history": r.printed[len(r.printed) // 2]["hist"]})
+        long_objects(out, str(workdir))
     finally:
         shutil.rmtree(workdir, ignore_errors=True)
     out.explanation = out.rule
